@@ -506,4 +506,6 @@ func main() {
 	emitMutFacts(repo, out)
 
 	// T3 (C11): sources of run-to-run nondeterminism (detfacts.go)
+	// T3 (C02/C03): guard facts of the format parsers (fmtfacts.go)
+	emitFmtFacts(repo, out)
 }
